@@ -30,6 +30,18 @@ def laws():
             (mode + ":unit-of-die-lists-it", E + " (|D| !(D unit raw entry (offset == D offset)))"),
             (mode + ":entry-twice-equal", "?([%s [offset, label, [attribute label]]] != [%s [offset, label, [attribute label]]])" % (E, E)),
         ]
+    # DIEs reached by routes that carry no import chain (converted from the raw view; the target of a
+    # reference attribute): their parent is the DIE that stores them - also directly under a partial unit
+    out += [
+        ("cooked:converted-die-has-stored-parent", "raw entry (|D| ?([D cooked parent offset] != [D parent offset]))"),
+        ("cooked:converted-die-root", "raw entry (|D| ?([D cooked root offset] != [D root offset]))"),
+        ("cooked:reference-target-has-stored-parent",
+         "entry attribute ?(form (== DW_FORM_ref4, == DW_FORM_ref_addr, == DW_FORM_ref_udata, == DW_FORM_ref1, == DW_FORM_ref2, == DW_FORM_ref8, == DW_FORM_GNU_ref_alt)) value ?(type == T_DIE) (|D| ?([D parent offset] != [D raw parent offset]))"),
+        ("cooked:reference-target-chain-ends-at-root",
+         "entry attribute ?(form (== DW_FORM_ref4, == DW_FORM_ref_addr, == DW_FORM_ref_udata, == DW_FORM_ref1, == DW_FORM_ref2, == DW_FORM_ref8, == DW_FORM_GNU_ref_alt)) value ?(type == T_DIE) (|D| ?((D parent* !(parent)) != (D root)))"),
+        ("raw:reference-target-has-stored-parent",
+         "raw entry attribute ?(form (== DW_FORM_ref4, == DW_FORM_ref_addr, == DW_FORM_ref_udata, == DW_FORM_ref1, == DW_FORM_ref2, == DW_FORM_ref8, == DW_FORM_GNU_ref_alt)) value ?(type == T_DIE) (|D| D child ?(parent != D))"),
+    ]
     return out
 
 
